@@ -139,6 +139,14 @@ def run(check, tier, seed, scratch):
         ar = 3 if op == 'merge3' else 2
         twin_m.append(('merge' if op == 'merge3' else op, tuple(rnd.randrange(len(UM)) for _ in range(ar)), flags(uva=rnd.random() < .8, uvk=rnd.random() < .8)))
     gens.append(plain_twin_events(Universe(UM), UM, twin_m))
+    # annotation / default VALUES with an unusual == (equal to everything, no truth value, raising, not equal to itself): still a signature or a ValueError
+    from .c10 import UnusualUniverse
+    UMu = [ps for ps in UM if all(p['an'] in (0, 1) and p['dv'] in (0, 2) for p in ps)][::3 if quick else 1]
+    for mode in ('anyeq', 'notruth', 'raises', 'never'):
+        uu = UnusualUniverse(UMu, mode)
+        gens.append(alggen.merge_tuples(uu, UMu, alggen.random_tuples(1500 if quick else 40000, len(UMu), 2, seed + 21), tag='merge2-unusual-' + mode))
+        gens.append(alggen.merge_tuples(uu, UMu, alggen.random_tuples(700 if quick else 20000, len(UMu), 3, seed + 22), tag='merge3-unusual-' + mode))
+        gens.append(alggen.embed_tuples(uu, UMu, alggen.random_tuples(1500 if quick else 40000, len(UMu), 2, seed + 23), tag='embed2-unusual-' + mode))
     for op in ('merge', 'embed', 'mask', 'forwards'):
         gens.append(alggen.cex_events(cu, op, [c for o, c in cex if o == op], tag='modelcex-' + op))
     run_trace_leg(check, scratch, 'robustness', alggen.chain(*gens), WANT)
